@@ -137,6 +137,15 @@ CHECKS['C20'] = dict(
           'in every insertion order: each order must match the definition (ties: any admissible answer) and all orders must agree.'),
     note='trusted: reference definitions in vf/ref/builtins.py and aggregates.py; SQLite integer division / C remainder; recorded C02 deviations modelled')
 
+CHECKS['C10'] = dict(
+    category='exploration', design_ref='DESIGN.md 4/C10',
+    technique='runtime monitor: string round trip through the real pipeline on SQLite; dialect-specific lexers decode the emitted literal and compare statement token shapes for the 7 non-executable dialects; sys.monitoring loop watch bounds flag expansion logically',
+    text=('Strings over an alphabet of every character special to Logica, Python formatting and the eight SQL dialects are placed as fact argument, '
+          'list element, record field, ++ operands, flag default, user flag and argv flag; on SQLite the value must come back character for '
+          'character; for the other dialects the emitted literal must decode (under that engine\'s lexical rules) to the original and keep the '
+          'token shape of a plain string; documented ${flag} expansion cases incl. recursive flags are checked with a logical bound on passes and text size.'),
+    note='trusted: lexical rules in vf/mon/sqllex.py; ${...} expansion is documented textual parameterisation')
+
 NOT_YET = 'check not built yet in this session (planned in DESIGN.md section 4); not claimed until it runs clean on the unchanged tree'
 
 
